@@ -100,6 +100,7 @@ def merge2(a, b):
     out["gap_texts"] = dict(a["gap_texts"]); out["gap_texts"].update(b["gap_texts"])
     out["counters"] = dict(a["counters"]); out["counters"].update(b["counters"])
     out["notes"] = dict(a["notes"]); out["notes"].update(b["notes"])
+    out["functions"] = set(a.get("functions", ())) | set(b.get("functions", ()))
     return out
 
 
